@@ -1395,3 +1395,67 @@ func l1Core(p *an.Prog, r *an.Result) {
 		})
 	}
 }
+
+// ---------------------------------------------------------------------------
+// M10
+
+func init() {
+	register("M10", "the expression evaluation context is not written once it is made: evaluation re-enters it (a filter argument is itself an expression evaluated in the same context), so a field that one application of a filter fills is overwritten by the application nested in its arguments", runM10)
+}
+
+func runM10(p *an.Prog, r *an.Result) {
+	var ctxT *types.Named
+	for _, n := range moduleNamedTypes(p) {
+		if an.RelPkg(n.Obj().Pkg().Path()) == "expressions" && n.Obj().Name() == "context" {
+			ctxT = n
+		}
+	}
+	if ctxT == nil {
+		r.Bad("-", "expressions.context not found", token.NoPos, "anchor not resolved")
+		return
+	}
+	for _, fn := range p.Funcs {
+		if fn.Blocks == nil || isMainPkg(fn) {
+			continue
+		}
+		name := an.FuncName(fn)
+		an.EachInstr(fn, func(in ssa.Instruction) {
+			st, ok := in.(*ssa.Store)
+			if !ok {
+				return
+			}
+			// a store into a field of a context (directly or into a field of an embedded struct)
+			addr := st.Addr
+			var top *ssa.FieldAddr
+			for {
+				fa, ok := addr.(*ssa.FieldAddr)
+				if !ok {
+					break
+				}
+				top = fa
+				addr = fa.X
+			}
+			if top == nil {
+				return
+			}
+			pt, ok := top.X.Type().Underlying().(*types.Pointer)
+			if !ok || !types.Identical(pt.Elem(), ctxT) {
+				return
+			}
+			r.Counts["stores into context fields"]++
+			// construction: the object is a literal being filled in this function
+			fresh := true
+			for _, o := range an.Origins(top.X, an.StepValue) {
+				if al, ok := o.(*ssa.Alloc); !ok || !strings.Contains(al.Comment, "complit") && !strings.Contains(al.Comment, "new") {
+					fresh = false
+				}
+			}
+			if fresh {
+				r.OK(name, "context field set while the context is being made", st.Pos(), "a composite literal of this function")
+			} else {
+				r.Bad(name, "context field "+fieldName(top)+" written after construction", st.Pos(), fmt.Sprintf("%s stores into a field of an evaluation context it did not just make: the context is shared by every expression evaluated during the call, including the ones nested in a filter's arguments, which then overwrite each other's state", an.FuncName(fn)))
+			}
+		})
+	}
+	r.Floor("stores into context fields", 2)
+}
